@@ -64,9 +64,27 @@ class CallMixin:
             return f.fn(args, kwargs, node, fr)
         if isinstance(f, VFn):
             zs = self.zs
-            uf = self.ufun('fn_' + f.name, *[zs.zsort(s_) for s_ in f.sort.args], zs.zsort(f.sort.ret))
+            # an optional argument is passed as the pair (is None, value): the value component is a fixed default when None
+            zsorts_, terms_ = [], []
+            for a, s_ in zip(args, f.sort.args):
+                if isinstance(s_, api.Opt):
+                    inner = zs.zsort(s_.inner)
+                    dflt = z3.Const(f'none_default_{inner}', inner)
+                    if a is None:
+                        nn, vv = z3.BoolVal(True), dflt
+                    elif isinstance(a, VOpt):
+                        nn = a.none if z3.is_expr(a.none) else z3.BoolVal(bool(a.none))
+                        vv = z3.If(nn, dflt, zs.lift(self.unwrap_term(a.val), inner)) if a.val is not None else dflt
+                    else:
+                        nn, vv = z3.BoolVal(False), zs.lift(self.unwrap_term(a), inner)
+                    zsorts_ += [z3.BoolSort(), inner]
+                    terms_ += [nn, vv]
+                else:
+                    zsorts_.append(zs.zsort(s_))
+                    terms_.append(zs.lift(self.unwrap_term(a), zs.zsort(s_)))
+            uf = self.ufun('fn_' + f.name, *zsorts_, zs.zsort(f.sort.ret))
             self.assumptions.add(f'callable parameter {f.name} is a pure function of its arguments')
-            return self.wrap_sort(uf(*[zs.lift(self.unwrap_term(a), zs.zsort(s_)) for a, s_ in zip(args, f.sort.args)]), f.sort.ret)
+            return self.wrap_sort(uf(*terms_), f.sort.ret)
         if z3.is_expr(f) and f.sort().name() in self.zs.enum_by_sort:
             return self.call_enum(f, args, kwargs, node, fr)
         if is_sym(f):
@@ -741,6 +759,7 @@ class CallMixin:
         names['rangeset'] = Builtin('rangeset', lambda a, k, n, f: self.b_set([self.b_range(a, {}, n, f)], {}, n, f) if any(is_sym(x) for x in a) else VBox('set', self._const_intset(range(*a)), api.Int))
         names['setadd'] = Builtin('setadd', self.b_setadd)
         names['emptyset'] = Builtin('emptyset', lambda a, k, n, f: VBox('set', None))
+        names['shlex_quote'] = Builtin('shlex_quote', lambda a, k, n, f: __import__('shlex').quote(a[0]) if not is_sym(a[0]) else self.ufun('py_shlex_quote', STR, STR)(self.zs.lift(a[0], STR)))
         for an_, S_ in (getattr(c, 'opaque_attrs', None) or {}).items():
             names['attr_' + an_] = Builtin('attr_' + an_, lambda a, k, n, f, an_=an_: self.obj_attr(a[0], an_, n))
         for fn_, (as_, rs_) in (getattr(c, 'opaque_fns', None) or {}).items():
@@ -749,6 +768,7 @@ class CallMixin:
             if isinstance(ps_, api.Fn):
                 names['fn_' + (ps_.fname or pn_)] = VFn(ps_.fname or pn_, ps_)
         names['isinst'] = Builtin('isinst', lambda a, k, n, f: self.isinst(a[0], a[1], n))
+        names['fs_lines'] = Builtin('fs_lines', lambda a, k, n, f: self.ufun('fs_lines', STR, z3.SeqSort(STR))(self.zs.lift(a[0], STR)))
         names['fs_exists'] = Builtin('fs_exists', lambda a, k, n, f: self.ufun('fs_exists', STR, z3.BoolSort())(self.zs.lift(a[0], STR)))
         names['fs_content'] = Builtin('fs_content', lambda a, k, n, f: self.ufun('fs_content', STR, STR)(self.zs.lift(a[0], STR)))
         names['re_match'] = Builtin('re_match', lambda a, k, n, f: self.re_syms(a[0], a[2] if len(a) > 2 else 'match')[1](self.zs.lift(a[1], STR)))
